@@ -20,8 +20,10 @@ META = dict(
     modelled=['clip_native_to_wngrid, Opacity.opacity / KTable.opacity grid selection (filter, equality test, '
               'bracketing, np.interp / interp1d with end-value fill), '
               'SimpleForwardModel.nativeWavenumberGrid'],
-    assumptions=['ascending native grids; the binning clause is checked on the implementation only '
-                 '(margin lemma not proved)',
+    assumptions=['ascending native grids; the binning clause: C13_binning_local proves that the overlap-weighted mean of '
+                 'a bin depends only on the native bins overlapping it (through overlap and value); that the clip and '
+                 'the width condition provide its premises is evaluated numerically on every instance and counted in the '
+                 'evidence, not proved',
                  'tolerance 1e-12 relative (exact rational model) for opacities, exp(-10) cut-off slack on spectra'],
 )
 
@@ -359,6 +361,25 @@ def models(ctx, rng):
                 b1 = b.bin_model(res)[1]
                 b2 = b.bin_model(full)[1]
             ctx.case(('bin', em, i))
+            # premises of C13_binning_local, evaluated on this instance: the native rows of the full run that the
+            # restricted run lacks have no overlap with any observation bin, and the rows both runs have overlap each
+            # bin by the same amount (their mid-point widths differ only at the two ends of the restricted grid)
+            from taurex.util.util import compute_bin_edges
+            gfull, grest = np.array(full[0], float), np.array(res[0], float)
+            wf, wr = compute_bin_edges(gfull)[-1], compute_bin_edges(grest)[-1]
+            i0 = int(np.searchsorted(gfull, grest[0]))
+            ow = np.sort(np.array(obs, float))
+            oe = compute_bin_edges(ow)
+            prem_ok = np.array_equal(gfull[i0:i0 + len(grest)], grest)
+            for a_, b_ in zip(oe[0][:-1], oe[0][1:]):
+                ovf = np.clip(np.minimum(gfull + wf / 2, b_) - np.maximum(gfull - wf / 2, a_), 0, None)
+                ovr = np.clip(np.minimum(grest + wr / 2, b_) - np.maximum(grest - wr / 2, a_), 0, None)
+                outside = np.ones(len(gfull), bool)
+                outside[i0:i0 + len(grest)] = False
+                if np.any(ovf[outside] > 0) or not np.allclose(ovf[~outside], ovr, rtol=1e-9, atol=1e-9 * float(b_ - a_)):
+                    prem_ok = False
+            ctx.count('binning: premises of C13_binning_local hold on the instance' if prem_ok else
+                      'binning: premises of C13_binning_local NOT met on the instance (clause checked by the oracle only)')
             tol = slack + (1e-9 + (math.exp(-10) if em else 0)) * np.abs(b2)
             if np.any(np.abs(b1 - b2) > tol):
                 ctx.violation('binning', 'binning the restricted result %r differs from binning the full result %r'
